@@ -304,3 +304,4 @@ package command
 //@   nopanic
 // (C09: a posting list runs the program compiled from the script generated for it, not one cached for another list)
 //@   property C08 C09
+//@   alsofor C12
